@@ -103,6 +103,27 @@ def run_writer(repo, method, units):
     return got[0]
 
 
+def build_heater(repo, interp, units="C", heating=None, cooling=None, current=20.0, target=21.0, real_target=20.0):
+    """GeckoWaterHeater built by its own constructor on a model spa (vlib/facademodel.py); heating / cooling
+    None = the pack has no such flag item"""
+    from ..absint import ClassRef
+    from ..facademodel import Rec, accessor as _acc, model_facade
+    rec = Rec()
+    gc = repo.cls("GeckoConstants")
+    K = {k: repo.fold(gc.consts[k], gc.mod, gc) for k in ("KEY_TEMP_UNITS", "KEY_SETPOINT_G", "KEY_DISPLAYED_TEMP_G", "KEY_REAL_SETPOINT_G", "KEY_HEATING", "KEY_COOLINGDOWN")}
+    accs = {K["KEY_TEMP_UNITS"]: _acc(rec, "TempUnits", units, "Enum", ["F", "C"]),
+            K["KEY_SETPOINT_G"]: _acc(rec, K["KEY_SETPOINT_G"], target, "Word"),
+            K["KEY_DISPLAYED_TEMP_G"]: _acc(rec, K["KEY_DISPLAYED_TEMP_G"], current, "Word"),
+            K["KEY_REAL_SETPOINT_G"]: _acc(rec, K["KEY_REAL_SETPOINT_G"], real_target, "Word")}
+    if heating is not None:
+        accs[K["KEY_HEATING"]] = _acc(rec, K["KEY_HEATING"], heating, "Bool")
+    if cooling is not None:
+        accs[K["KEY_COOLINGDOWN"]] = _acc(rec, K["KEY_COOLINGDOWN"], cooling, "Bool")
+    fac, _spa = model_facade(rec, accs)
+    interp.steps = 0
+    return interp.apply(ClassRef(repo.cls("GeckoWaterHeater")), [fac], {}), accs, rec
+
+
 def check_heater_setters(ctx, repo):
     """R5: the heater's two setters hand the caller's value, unchanged, to the temperature accessor on
     every path (a skipped or altered write cannot read back exactly)"""
@@ -217,11 +238,11 @@ def check(ctx):
     consts = {k: repo.try_fold(v, hc.mod, hc) for k, v in hc.consts.items()}
     vals = {}
     for u in ("C", "F", "Unknown"):
-        obj = Obj(hc, {"_temperature_unit_accessor": Obj(None, {"value": u})})
+        obj, _accs, _rec = build_heater(repo, interp, units=u)
         for member in ("temperature_unit", "min_temp", "max_temp"):
             try:
                 interp.steps = 0
-                vals[(u, member)] = interp.call(repo.own_method("GeckoWaterHeater", member), obj, [])
+                vals[(u, member)] = interp.getattr(obj, member)
             except (PyRaise, Undecided) as e:
                 raise AnalysisError(f"GeckoWaterHeater.{member}: {e}")
     exp = {"C": ("TEMP_CELCIUS", "MIN_TEMP_C", "MAX_TEMP_C"), "F": ("TEMP_FARENHEIGHT", "MIN_TEMP_F", "MAX_TEMP_F"), "Unknown": ("TEMP_FARENHEIGHT", "MIN_TEMP_F", "MAX_TEMP_F")}
@@ -235,20 +256,70 @@ def check(ctx):
     ctx.ob("R2", "limits::same-temperatures", ok, f"Celsius and Fahrenheit limits denote different temperatures: {consts}")
     ctx.ob("R2", "symbols", "C" in str(consts.get("TEMP_CELCIUS")) and "F" in str(consts.get("TEMP_FARENHEIGHT")), "unit symbols swapped")
 
-    # ---- R4 live unit -----------------------------------------------------------------------
-    n_src = 0
-    for cname, members in ((ACC, ("_get_value", "_set_value", "async_set_value")), ("GeckoWaterHeater", ("temperature_unit", "min_temp", "max_temp"))):
-        for mname in members:
-            fi = repo.own_method(cname, mname)
-            srcs = unit_sources(repo, fi)
-            n_src += len(srcs)
-            ctx.ob("R4", f"{fi.qual}::unit-test-present", bool(srcs), f"{fi.qual}: no comparison of the unit with 'C' found", fi.loc)
-            for kind, text in srcs:
-                ctx.ob("R4", f"{fi.qual}::unit-read-live", kind == "live",
-                       f"{fi.qual}: the unit it converts with comes from `{text}` ({kind}), not from a read of the TempUnits item within the call: values, symbol and limits can disagree "
-                       f"while the setting changes (e.g. inside the change notification, where a cached copy is still stale)", fi.loc,
-                       sample={"rule": "R4", "member": fi.qual, "source": text, "kind": kind})
-    ctx.floor("R4", "unit comparisons", n_src, 6)
+    # ---- R4 live unit: by interpretation ------------------------------------------------------------
+    # the object is built once (real constructors) with the unit item reading 'C'; the item is then switched to
+    # 'F' WITHOUT any notification having been delivered - exactly the situation inside a change callback that
+    # runs before the object's own.  Every unit-dependent result must already follow the new unit.
+    from ..absint import ClassRef
+    n_live = 0
+    acls = repo.cls(ACC)
+    for method in ("_get_value", "_set_value", "async_set_value"):
+        interp = Interp(repo)
+        got = []
+
+        def hook(ip, node, callee, args, kwargs, method=method):
+            if isinstance(callee, BoundMethod) and callee.fi.cls.short != ACC:
+                if callee.fi.name == "_get_value":
+                    return Affine(1, 0)
+                if callee.fi.name == method:
+                    got.append(args[0])
+                    return None
+            return NotImplemented
+        interp.call_hook = hook
+        try:
+            obj = _make_accessor(repo, interp, acls, "C")
+            units_item = obj.attrs["struct"].attrs["accessors"]["TempUnits"] if "struct" in obj.attrs else None
+            res = []
+            for u in ("C", "F"):
+                if units_item is None:
+                    raise Undecided("temperature accessor does not keep its structure")
+                units_item.attrs["value"] = u
+                got.clear()
+                interp.steps = 0
+                r = interp.call(repo.own_method(ACC, method), obj, [None] if method == "_get_value" else [Affine(1, 0)])
+                res.append(r if method == "_get_value" else (got[0] if got else None))
+        except (PyRaise, Undecided) as e:
+            raise AnalysisError(f"{ACC}.{method} (live unit): {e}")
+        want = [readers["C"], readers["F"]] if method == "_get_value" else [writers.get((method, "C")), writers.get((method, "F"))]
+        same = all(isinstance(x, Affine) and isinstance(y, Affine) and (x.a, x.b) == (y.a, y.b) for x, y in zip(res, want))
+        n_live += 1
+        ctx.ob("R4", f"{ACC}.{method}::unit-read-live", same,
+               f"{ACC}.{method}: after the unit item switches from C to F (before any change notification reaches this object) it still converts with {res[1]!r}, expected {want[1]!r}: "
+               f"the unit is taken from a stored copy, so values, symbol and limits disagree while the setting changes", repo.own_method(ACC, method).loc,
+               sample={"rule": "R4", "member": f"{ACC}.{method}", "after_switch": repr(res[1])})
+    from ..facademodel import Rec, accessor as _acc, model_facade
+    rec = Rec()
+    gc = repo.cls("GeckoConstants")
+    K = {k: repo.fold(gc.consts[k], gc.mod, gc) for k in ("KEY_TEMP_UNITS", "KEY_SETPOINT_G", "KEY_DISPLAYED_TEMP_G", "KEY_REAL_SETPOINT_G")}
+    accs = {K["KEY_TEMP_UNITS"]: _acc(rec, "TempUnits", "C", "Enum", ["F", "C"])}
+    for kk in ("KEY_SETPOINT_G", "KEY_DISPLAYED_TEMP_G", "KEY_REAL_SETPOINT_G"):
+        accs[K[kk]] = _acc(rec, K[kk], 20.0, "Word")
+    fac, _spa = model_facade(rec, accs)
+    interp = Interp(repo, max_depth=12)
+    try:
+        heater = interp.apply(ClassRef(hc), [fac], {})
+        seen = {}
+        for u in ("C", "F"):
+            accs[K["KEY_TEMP_UNITS"]].attrs["value"] = u
+            seen[u] = tuple(interp.getattr(heater, m) for m in ("temperature_unit", "min_temp", "max_temp"))
+    except (PyRaise, Undecided) as e:
+        raise AnalysisError(f"GeckoWaterHeater (live unit): {e}")
+    wantF = tuple(consts.get(c_) for c_ in exp["F"])
+    n_live += 1
+    ctx.ob("R4", "GeckoWaterHeater::unit-read-live", seen["F"] == wantF and seen["C"] == tuple(consts.get(c_) for c_ in exp["C"]),
+           f"GeckoWaterHeater built while the unit was C reports (symbol, min, max) = {seen['F']} after the unit item switched to F, expected {wantF}: symbol/limits come from a stored copy of the unit",
+           repo.own_method("GeckoWaterHeater", "temperature_unit").loc, sample={"rule": "R4", "member": "GeckoWaterHeater", "C": list(map(str, seen["C"])), "F": list(map(str, seen["F"]))})
+    ctx.floor("R4", "live-unit members", n_live, 4)
 
     # ---- R3 -------------------------------------------------------------------------------
     co = repo.own_method("GeckoWaterHeater", "current_operation")
@@ -268,14 +339,10 @@ def check(ctx):
     for h in (None, True, False):
         for cl in (None, True, False):
             for sign in (-1, 0, 1):
-                obj = Obj(hc, {
-                    "_heating_action_sensor": None if h is None else Obj(None, {"is_on": h}),
-                    "_cooling_action_sensor": None if cl is None else Obj(None, {"is_on": cl}),
-                    "current_temperature": 20.0 + sign, "real_target_temperature": 20.0,
-                })
                 try:
+                    obj, _accs, _rec = build_heater(repo, interp, units="C", heating=h, cooling=cl, current=20.0 + sign, real_target=20.0)
                     interp.steps = 0
-                    got = interp.call(co, obj, [])
+                    got = interp.getattr(obj, "current_operation")
                 except (PyRaise, Undecided) as e:
                     raise AnalysisError(f"current_operation: {e}")
                 n += 1
